@@ -869,6 +869,7 @@ class _RegionNS(dict):
 
     def __init__(self, symbolic, values):
         super().__init__(values)
+        self._symbolic = symbolic
         if symbolic:
             self.update(And=z3.And, Or=z3.Or, Not=z3.Not, Implies=z3.Implies)
         else:
@@ -882,7 +883,7 @@ def label_matches(label, pat):
 
 
 def region_holds(expr, values, symbolic=False):
-    """Evaluate a region expression; an undeclared variable means the region does not apply (None)."""
+    """Evaluate a region expression over the harness variables (undeclared variables: region does not apply)."""
     try:
         return eval(expr, {"__builtins__": {"any": builtins.any, "all": builtins.all, "range": range, "len": builtins.len}},
                     _RegionNS(symbolic, values))
